@@ -123,6 +123,12 @@ def part_add_inf(chk):
         q2, r2 = f64.lift(T2.quotient), f64.lift(T2.remainder)
         pinf = z3.fpPlusInfinity(f64.F64)
         ex.oblige("add-inf-is-absorbing", z3.And(z3.fpEQ(q2, pinf), z3.fpEQ(r2, pinf)), replay="addinf")
+        # the infinite time absorbs every finite displacement as well
+        dt = f64.var("dt")
+        ex.axiom(z3.And(z3.fpGEQ(dt.t, FV(0.0)), z3.fpLEQ(dt.t, FV(P40))))
+        T3 = Time(math.inf, math.inf) + dt
+        ex.oblige("inf-plus-finite-is-inf", z3.And(z3.fpEQ(f64.lift(T3.quotient), pinf),
+                                                   z3.fpEQ(f64.lift(T3.remainder), pinf)), replay="infplus")
         # the module constant inf compares larger than every finite time and equal to itself
         T = Time(q, r)
         finite = valid_time(q.t, r.t)
@@ -428,6 +434,17 @@ def replay_addinf(model, q):
     return {"reproduced": False, "what": "inf behaves natively"}
 
 
+def replay_infplus(model, q):
+    dt = model.get("dt", 1.0)
+    T = Time(math.inf, math.inf) + dt
+    if not (T.quotient == math.inf and T.remainder == math.inf):
+        return {"reproduced": True, "key": "C14-inf-plus-finite-is-nan",
+                "what": "Time(inf, inf) + %r = Time(%r, %r): the infinite time is not absorbing" % (dt, T.quotient,
+                                                                                                 T.remainder),
+                "data": {"kind": "infplus", "dt": dt.hex()}}
+    return {"reproduced": False, "what": "inf + %r = inf natively" % dt}
+
+
 def translator_validation(chk):
     """F64 encoding of CPython divmod/% vs. CPython itself on edge doubles and seeded random ones."""
     import random as real_random
@@ -499,7 +516,7 @@ def main():
     chk.stub("math.isinf inside jellyfysh.base.time -> fp.isInfinite on proxies")
     translator_validation(chk)
     for name, fn in (("add", replay_add), ("add0", replay_add0), ("fromfloat", replay_fromfloat), ("mono", replay_mono), ("cmp", replay_cmp),
-                     ("addinf", replay_addinf), ("sub", replay_sub)):
+                     ("addinf", replay_addinf), ("sub", replay_sub), ("infplus", replay_infplus)):
         chk.register_replay(name, fn)
     if chk.thorough:
         timeouts = {"norm": 900, "joint_exact": 3000}
@@ -541,6 +558,8 @@ def do_replay(chk):
         out = replay_mono({"q": h(d["q"]), "s1": h(d["s1"]), "s2": h(d["s2"])}, None)
     elif kind == "cut":
         out = replay_mono({"q": h(d["q"]), "r": h(d["r"]), "dt": h(d["dt"])}, None)
+    elif kind == "infplus":
+        out = replay_infplus({"dt": h(d["dt"])}, None)
     elif kind == "inf":
         out = replay_addinf({"q": h(d["q"]), "r": h(d["r"])}, None)
     elif kind == "sub":
